@@ -42,6 +42,7 @@ type val struct {
 
 type cred struct {
 	Name string `json:"name"`
+	Cid  string `json:"cid"` // credential id member (several credentials may carry the same one); default = name
 	Fmt  string `json:"fmt"` // ldp | jwt
 	Typ  string `json:"typ"`
 	F    val    `json:"f"`
@@ -97,6 +98,8 @@ type entry struct {
 }
 
 type sub struct {
+	Ek  string `json:"ek"`  // plain | kind of hostile envelope
+	Env []cred `json:"env"` // credentials of the holder's presentation when it is not the wallet's own selection
 	Shape   string  `json:"shape"`
 	Mut     string  `json:"mut"`
 	Entries []entry `json:"entries"`
@@ -221,6 +224,13 @@ func (v val) concrete() (any, bool) {
 	return nil, false
 }
 
+func (c cred) id() string {
+	if c.Cid != "" {
+		return c.Cid
+	}
+	return c.Name
+}
+
 var credCache = map[string]vc.VerifiableCredential{}
 
 func buildCred(c cred) (vc.VerifiableCredential, error) {
@@ -240,7 +250,7 @@ func buildCred(c cred) (vc.VerifiableCredential, error) {
 	case "ldp":
 		doc := map[string]any{
 			"@context":          []any{"https://www.w3.org/2018/credentials/v1"},
-			"id":                "urn:vc:" + c.Name,
+			"id":                "urn:vc:" + c.id(),
 			"type":              []any{"VerifiableCredential", c.Typ},
 			"issuer":            issuerDID,
 			"issuanceDate":      "2024-01-01T00:00:00Z",
@@ -255,7 +265,7 @@ func buildCred(c cred) (vc.VerifiableCredential, error) {
 		tok := jwt.New()
 		_ = tok.Set(jwt.IssuerKey, issuerDID)
 		_ = tok.Set(jwt.SubjectKey, holderDID)
-		_ = tok.Set(jwt.JwtIDKey, "urn:vc:"+c.Name)
+		_ = tok.Set(jwt.JwtIDKey, "urn:vc:"+c.id())
 		_ = tok.Set(jwt.NotBeforeKey, time.Date(2024, 1, 1, 0, 0, 0, 0, time.UTC))
 		_ = tok.Set("vc", map[string]any{
 			"@context":          []any{"https://www.w3.org/2018/credentials/v1"},
@@ -853,8 +863,11 @@ func runCase(c acase, in input) (res result) {
 
 	decoy, _ := buildCred(cred{Name: "decoyvp", Fmt: "ldp", Typ: "DecoyCredential", F: val{K: "s", S: "zzz"}, G: val{K: "none"}})
 
-	validate := func(shape string, s pe.PresentationSubmission) (outcome, map[string]vc.VerifiableCredential, error) {
-		env, err := buildEnvelope(shape, sign.VerifiableCredentials, decoy)
+	validate := func(shape string, s pe.PresentationSubmission, presented []vc.VerifiableCredential) (outcome, map[string]vc.VerifiableCredential, error) {
+		if presented == nil {
+			presented = sign.VerifiableCredentials
+		}
+		env, err := buildEnvelope(shape, presented, decoy)
 		if err != nil {
 			return outcome{}, nil, err
 		}
@@ -894,7 +907,7 @@ func runCase(c acase, in input) (res result) {
 			}
 			_ = vpfmt
 		}
-		o, got, err := validate(shape, s)
+		o, got, err := validate(shape, s, nil)
 		if err != nil {
 			res.Error = "cannot build envelope: " + err.Error()
 			return
@@ -989,27 +1002,36 @@ func runCase(c acase, in input) (res result) {
 		if in.Corrupt == "verdict" && must == "accept" {
 			must = "reject" // self-test: the expectation of the correct submission is corrupted
 		}
-		o, _, err := validate(sb.Shape, s)
+		var presented []vc.VerifiableCredential
+		for _, e := range sb.Env {
+			v, err := buildCred(e)
+			if err != nil {
+				res.Error = "cannot build credential " + e.Name + ": " + err.Error()
+				return
+			}
+			presented = append(presented, v)
+		}
+		o, _, err := validate(sb.Shape, s, presented)
 		if err != nil {
 			res.Error = "cannot build envelope: " + err.Error()
 			return
 		}
 		res.Checks++
 		if in.Verbose {
-			subObs = append(subObs, map[string]any{"mut": sb.Mut, "shape": sb.Shape, "must": sb.Must, "res": o.res, "err": o.err, "map": s.DescriptorMap})
+			subObs = append(subObs, map[string]any{"mut": sb.Mut, "shape": sb.Shape, "ek": sb.Ek, "must": sb.Must, "res": o.res, "err": o.err, "map": s.DescriptorMap})
 		}
 		if real := map[string]string{"ok": "accept", "error": "reject", "panic": "panic"}[o.res]; real != sb.Pred && in.Corrupt == "" {
-			res.Drift = append(res.Drift, fmt.Sprintf("Validate %s/%s: model predicts %s, code: %s %s", sb.Shape, sb.Mut, sb.Pred, real, o.err))
+			res.Drift = append(res.Drift, fmt.Sprintf("Validate %s/%s/%s: model predicts %s, code: %s %s", sb.Shape, sb.Ek, sb.Mut, sb.Pred, real, o.err))
 		}
 		switch {
 		case o.res == "panic":
 			viol(violation{Kind: "panic", Shape: class, Mut: sb.Mut, Env: sb.Shape, Detail: "Validate: " + o.err + " at " + o.stack})
 		case must == "reject" && o.res == "ok":
 			dm, _ := json.Marshal(s.DescriptorMap)
-			viol(violation{Kind: "forged-accepted", Shape: class, Mut: sb.Mut, Env: sb.Shape, Detail: string(dm)})
+			viol(violation{Kind: "forged-accepted", Shape: class, Mut: sb.Mut, Env: sb.Shape + "/" + sb.Ek, Detail: string(dm)})
 		case must == "accept" && o.res != "ok":
 			_, array, _ := shapeParts(sb.Shape)
-			if array || sb.Mut != "none" {
+			if array || sb.Mut != "none" || (sb.Ek != "" && sb.Ek != "plain") {
 				res.Drift = append(res.Drift, fmt.Sprintf("submission %s/%s expected to be accepted, rejected: %s", sb.Shape, sb.Mut, o.err))
 			} else {
 				viol(violation{Kind: "correct-rejected", Shape: class, Mut: sb.Mut, Env: sb.Shape, Detail: o.err})
